@@ -759,7 +759,7 @@ def rule_length(facts, impls):
             else:
                 ln.ok({"function": b.id, "leaves": nleaf, "delta": " or ".join(_fmt_poly(w) for w in wants), "verdict": "ok"})
     ln.require_floor(12, "sink operations summarised")
-    return [pf, wd, ln, rule_wordcount(facts, impls), rule_twoc_default(facts)]
+    return [pf, wd, ln, rule_wordcount(facts, impls), rule_twoc_default(facts), rule_operand(facts, impls)]
 
 
 def _eval_pad(rv, B, unit):
@@ -1138,3 +1138,221 @@ def rule_twoc_default(facts):
         tw.ok({"function": b.id, "rows": rows, "summary": "; ".join(E.flat(ev))[:200], "verdict": "n-bit code on every row"})
     tw.require_floor(1, "default write_twoc")
     return tw
+
+
+# ------------------------------------------------------------------------------------------------ OPERAND
+# Which bits of the operand reach the storage.  `write_msbs(val, n)` must ignore everything below the n most significant
+# bits of `val`, `write_lsbs(val, n)` everything above the n least significant ones.  Both in-memory sinks do this in one
+# place: write_msbs clears the low bits with a mask that depends on n only, write_lsbs left-aligns (`val << (BITS - n)`) and
+# hands the value to the msbs path.  The rule extracts the mask / the alignment expression from the MIR (flow-sensitive
+# backward slice) and evaluates it for every n in 1..=BITS and every operand width; it also requires that nothing in the
+# method touches the sink before / beside that normalisation.  The placement arithmetic after the normalisation (shifts
+# by the fill state, carries into the next word) is NOT decided.
+
+def _lx_eval(e, env, W):
+    """Evaluate a lib_expr tree of integer operations; W = width of the generic operand type.  None = not evaluable or
+    an overflowing shift."""
+    M = (1 << W) - 1
+    if not isinstance(e, tuple):
+        return None
+    k = e[0]
+    if k == "c":
+        if isinstance(e[1], int):
+            return e[1]
+        if e[2] and re.search(r"::BITS$", e[2]):
+            return W
+        mm = re.search(r"<impl (u\d+|usize)>::MAX$", e[2] or "")
+        if mm:
+            return (1 << {"usize": 64}.get(mm.group(1), int(mm.group(1)[1:]) if mm.group(1) != "usize" else 64)) - 1
+        if isinstance(e[1], str) and re.match(r"^\d+$", e[1]):
+            return int(e[1])
+        return None
+    if k in ("p", "l"):
+        return env.get((k, e[1]))
+    if k == "cast":
+        v = _lx_eval(e[2], env, W)
+        w2 = {"u8": 8, "u16": 16, "u32": 32, "u64": 64, "usize": 64, "i32": 32, "i64": 64, "u128": 128}.get(e[1])
+        return None if v is None else (v & ((1 << w2) - 1) if w2 else v)
+    if k == "un":
+        v = _lx_eval(e[2], env, W)
+        if v is None:
+            return None
+        return (~v) & M if e[1] == "Not" else None
+    if k == "bin":
+        a, b = _lx_eval(e[2], env, W), _lx_eval(e[3], env, W)
+        if a is None or b is None:
+            return None
+        op = e[1]
+        if op == "Sub":
+            return a - b if a >= b else None
+        if op == "Add":
+            return a + b
+        if op == "Mul":
+            return a * b
+        if op in ("Shl", "Shr"):
+            if b >= 64:
+                return None
+            return ((a << b) & ((1 << 64) - 1)) if op == "Shl" else a >> b
+        if op == "BitAnd":
+            return a & b
+        if op == "BitOr":
+            return a | b
+        return None
+    if k == "call":
+        nm = e[1]
+        args = [_lx_eval(a, env, W) for a in e[2]]
+        tail = re.sub(r"::<[^<>]*(<[^<>]*>[^<>]*)*>$", "", nm)
+        m = re.search(r"<impl (u\d+|usize)>", nm)
+        cw = {"u8": 8, "u16": 16, "u32": 32, "u64": 64, "usize": 64}.get(m.group(1)) if m else None
+        if re.search(r"One::one$", tail):
+            return 1
+        if re.search(r"Zero::zero$", tail):
+            return 0
+        if re.search(r"::max_value$|Bounded::max_value$", tail):
+            return M
+        if any(a is None for a in args):
+            return None
+        if re.search(r"Shl::shl$|ShlAssign::shl_assign$", tail) and len(args) == 2:
+            return None if args[1] >= W else (args[0] << args[1]) & M
+        if re.search(r"Shr::shr$", tail) and len(args) == 2:
+            return None if args[1] >= W else (args[0] & M) >> args[1]
+        if re.search(r"Sub::sub$", tail) and len(args) == 2:
+            return (args[0] - args[1]) & M if args[0] >= args[1] else None
+        if re.search(r"Add::add$", tail) and len(args) == 2:
+            return args[0] + args[1] if args[0] + args[1] <= M else None
+        if re.search(r"Not::not$", tail) and len(args) == 1:
+            return (~args[0]) & M
+        if re.search(r"BitAnd::bitand$", tail) and len(args) == 2:
+            return args[0] & args[1]
+        if re.search(r"BitOr::bitor$", tail) and len(args) == 2:
+            return args[0] | args[1]
+        if cw and re.search(r"::wrapping_shr$", tail) and len(args) == 2:
+            return (args[0] & ((1 << cw) - 1)) >> (args[1] % cw)
+        if cw and re.search(r"::wrapping_shl$", tail) and len(args) == 2:
+            return (args[0] << (args[1] % cw)) & ((1 << cw) - 1)
+        if cw and re.search(r"::(checked_|unbounded_)?sh[lr]$", tail):
+            return None
+        if re.search(r"(From|Into)<.*>>::(from|into)$|::from$|::into$|AsPrimitive<.*>>::as_$", tail) and len(args) == 1:
+            return args[0]
+        facts = env.get("#facts")
+        cb = facts.bodies.get(nm) if facts is not None else None
+        if cb is not None and cb.argc == len(args) and len(cb.blocks) <= 12 and env.get("#depth", 0) < 3:
+            # a small crate-local pure helper (e.g. a widening `left_align`): evaluate its return expression
+            from .lib_expr import ExprCtx
+            rets = cb.returns()
+            re_ = ExprCtx(cb, at=rets[0] if rets else None).place({"l": 0, "p": []})
+            env2 = {("p", i + 1): a for i, a in enumerate(args)}
+            env2["#facts"] = facts
+            env2["#depth"] = env.get("#depth", 0) + 1
+            return _lx_eval(re_, env2, W)
+        return None
+    return None
+
+
+def rule_operand(facts, impls):
+    from .lib_expr import ExprCtx, show as lshow, walk as lwalk
+    op = RuleResult("OPERAND", "write_msbs clears everything below the n most significant bits with a mask that is right for "
+                               "every n in 1..=BITS, write_lsbs left-aligns by BITS - n, and neither touches the sink before that")
+    for imp in impls:
+        m = re.search(r"^bitsink::MemSink<(u\d+)>$", imp["self"])
+        if not m:
+            continue
+        bodies = dict((facts.bodies[i].raw.get("name"), facts.bodies[i]) for i in imp["items"] if i in facts.bodies)
+        # ---------------- write_lsbs: val is used only as `val << (BITS - n)`, handed to the msbs path with the same n
+        b = bodies.get("write_lsbs")
+        if b is None:
+            op.fail(Finding("OPERAND", imp["self"], "anchor-missing:write_lsbs", 0, "", "write_lsbs of %s not found" % imp["self"]))
+        else:
+            hand = [(bi, t) for bi, t in b.calls() if re.search(r"write_msbs", (t.get("fn") or {}).get("name") or "")]
+            mut_self = [(bi, t) for bi, t in b.calls() if t["args"] and (t.get("argtys") or [""])[0].startswith("&mut ")
+                        and any(o[0] == "param" and o[1] == 1 for o in b.origins(t["args"][0]))]
+            stores = [(bi, si) for bi, si, st in b.iter_stmts() if st["k"] == "assign" and st["dst"]["p"] and
+                      any(o[0] == "param" and o[1] == 1 for o in b.place_origins({"l": st["dst"]["l"], "p": []}))]
+            ok = len(hand) == 1 and [x[0] for x in mut_self] == [hand[0][0]] and not stores
+            why = ""
+            rows = 0
+            if not ok:
+                why = ("write_lsbs updates the sink itself (%d store(s) to self, %d call(s) with &mut self) instead of only "
+                       "handing the left-aligned operand to the msbs path: bits of the operand above n are not known to be "
+                       "discarded" % (len(stores), len(mut_self)))
+            else:
+                bi, t = hand[0]
+                ex = ExprCtx(b, at=bi)
+                ev_, en = ex.expr(t["args"][1]), ex.expr(t["args"][2])
+                if en != ("p", 3, ()):
+                    ok, why = False, "the count handed to the msbs path is %s, not n" % lshow(en)
+                else:
+                    for W in (8, 16, 32, 64):
+                        for n in range(1, W + 1):
+                            for val in ((1 << W) - 1, 0x5A5A5A5A5A5A5A5A & ((1 << W) - 1), 1, 1 << (W - 1)):
+                                rows += 1
+                                got = _lx_eval(ev_, {("p", 2): val, ("p", 3): n, "#facts": facts}, W)
+                                want = (val << (W - n)) & ((1 << W) - 1)
+                                # the msbs path may take the operand in its own width or widened to 64 bits, left-aligned
+                                if got != want and got != want << (64 - W):
+                                    ok = False
+                                    why = ("write_lsbs::<u%d>(%#x, %d) hands %s to the msbs path (expression %s); the n least "
+                                           "significant bits left-aligned are %#x" % (W, val, n, "%#x" % got if got is not None
+                                                                                      else "a value that is not evaluable / an "
+                                                                                      "overflowing shift", lshow(ev_)[:100], want))
+                                    break
+                            if not ok:
+                                break
+                        if not ok:
+                            break
+            if ok:
+                op.ok({"function": b.id, "rows": rows, "verdict": "left-aligned by BITS - n on every row"})
+            else:
+                op.fail(Finding("OPERAND", b.id, "lsbs-normalisation", 0, b.loc(), why))
+        # ---------------- write_msbs: the first thing done with val is `val &= MASK(n)`
+        b = bodies.get("write_msbs")
+        if b is None:
+            op.fail(Finding("OPERAND", imp["self"], "anchor-missing:write_msbs", 0, "", "write_msbs of %s not found" % imp["self"]))
+            continue
+        masks = []
+        for bi, t in b.calls():
+            nm = (t.get("fn") or {}).get("name")
+            if nm in ("bitand_assign", "bitand") and t["args"]:
+                masks.append((bi, t["args"][1], "call"))
+        for bi, si, st in b.iter_stmts():
+            if st["k"] == "assign" and st["rv"]["k"] == "bin" and st["rv"]["op"] == "BitAnd":
+                masks.append((bi, st["rv"]["b"], "stmt"))
+        # the mask must dominate every update of the sink (stores to self fields are allowed before: the length update)
+        upd = [bi for bi, t in b.calls() if t["args"] and (t.get("argtys") or [""])[0].startswith("&mut ")
+               and any(o[0] == "param" and o[1] == 1 for o in b.origins(t["args"][0]))]
+        cand = [mk for mk in masks if all(b.dominates(mk[0], u) for u in upd)]
+        if not cand:
+            op.fail(Finding("OPERAND", b.id, "msbs-mask-missing", 0, b.loc(), "no masking of the operand (`val &= ...`) dominates "
+                            "the updates of the storage in %s: bits below the n most significant ones can reach the sink" % b.id))
+            continue
+        bi, mop, _kind = cand[0]
+        ex = ExprCtx(b, at=bi)
+        me = ex.expr(mop)
+        gen = any(isinstance(x, tuple) and x and x[0] == "c" and x[2] and str(x[2]).endswith("::BITS") for x in lwalk(me)) or \
+            any(isinstance(x, tuple) and x and x[0] == "call" and re.search(r"One::one$", x[1].split("::<")[0]) for x in lwalk(me))
+        widths = (8, 16, 32, 64) if gen else (64,)
+        bad = None
+        rows = 0
+        for W in widths:
+            for n in range(1, W + 1):
+                rows += 1
+                got = _lx_eval(me, {("p", 3): n, "#facts": facts}, W)
+                want = (((1 << n) - 1) << (W - n)) & ((1 << W) - 1)
+                if got != want:
+                    bad = (W, n, got, want)
+                    break
+            if bad:
+                break
+        if bad:
+            W, n, got, want = bad
+            op.fail(Finding("OPERAND", b.id, "msbs-mask-wrong", 0, b.loc(bi, "term"),
+                            "the mask applied to a %d-bit operand for n = %d is %s (expression %s); keeping exactly the n most "
+                            "significant bits needs %#x. write_msbs(val, %d) then stores %s"
+                            % (W, n, "%#x" % got if got is not None else "not evaluable / an overflowing shift", lshow(me)[:120],
+                               want, n, "bits the caller did not ask for" if got is not None and got & ~want else
+                               "zeros in place of operand bits")))
+        else:
+            op.ok({"function": b.id, "rows": rows, "mask": lshow(me)[:120], "widths": list(widths),
+                   "verdict": "top-n mask on every row"})
+    op.require_floor(4, "operand normalisations")
+    return op
